@@ -15,6 +15,51 @@ from sa.model import AnalysisError, walk_shallow, dotted, norm
 from sa import hsmrules
 
 
+def none_deref(model, cls, m, depth=2, seen=None):
+    """an expression `self.X.<attr>` / `self.X(...)` in method m (or in a method of the same object it calls) where X is an attribute the constructors of the class set to
+    None, reached without a test that X is there: the Attribute node, else None"""
+    from sa.util import cfg_of
+    from sa.boolflow import must_atoms
+    seen = seen or set()
+    if m is None or m.qualname in seen or not m.params:
+        return None
+    seen.add(m.qualname)
+    nullable = set()
+    for k in model.mro(cls):
+        init = k.methods.get('__init__')
+        if init is None or not init.params:
+            continue
+        for st in ast.walk(init.node):
+            if isinstance(st, ast.Assign) and isinstance(st.value, ast.Constant) and st.value.value is None:
+                for t in st.targets:
+                    if isinstance(t, ast.Attribute) and isinstance(t.value, ast.Name) and t.value.id == init.params[0]:
+                        nullable.add(t.attr)
+    selfn = m.params[0]
+    g = cfg_of(m)
+    for node in g.nodes:
+        if node.kind in ('entry', 'exit', 'xexit', 'def'):
+            continue
+        for x in node.walk():
+            if isinstance(x, ast.Attribute) and isinstance(x.value, ast.Attribute) and isinstance(x.value.value, ast.Name) and x.value.value.id == selfn and x.value.attr in nullable:
+                vtxt = '%s.%s' % (selfn, x.value.attr)
+                atoms = must_atoms(g, node, m.node, params=m.params)
+                guarded = any((l_ == vtxt and (op_ == 'Truthy' or (op_ in ('IsNot', 'NotEq') and r_ == 'None'))) or (r_ == vtxt and op_ in ('IsNot', 'NotEq') and l_ == 'None')
+                              for (l_, op_, r_) in atoms)
+                in_try = any(isinstance(t_, ast.Try) and any(y is x for b_ in t_.body for y in ast.walk(b_)) and
+                             any(h_.type is None or any(norm(z).split('.')[-1] in ('Exception', 'BaseException', 'AttributeError') for z in ([h_.type] if not isinstance(h_.type, ast.Tuple) else h_.type.elts))
+                                 for h_ in t_.handlers) for t_ in walk_shallow(m.node))
+                if not guarded and not in_try:
+                    return x
+    if depth > 0:
+        for c in walk_shallow(m.node):
+            if isinstance(c, ast.Call) and isinstance(c.func, ast.Attribute) and isinstance(c.func.value, ast.Name) and c.func.value.id == selfn:
+                m2 = next((k_.methods[c.func.attr] for k_ in model.mro(cls) if c.func.attr in k_.methods), None)
+                r = none_deref(model, cls, m2, depth - 1, seen)
+                if r is not None:
+                    return r
+    return None
+
+
 def exceptions_propagate(run, model):
     """The exception is raised deep in init/dispatch/trans_; the user sees it only if every layer between the public call (start_at, dispatch, next_rtc,
     complete_circuit, post_*) and the processor lets it through: decorator wrappers and overriding methods.  Two ways to lose it, both visible in the syntax:
@@ -56,6 +101,25 @@ def exceptions_propagate(run, model):
                 if not wide:
                     continue
                 reraises = any(isinstance(x, ast.Raise) for st in h.body for x in ast.walk(st))
+                # work done before the re-raise must not be able to fail itself: an exception raised inside the handler replaces the one in flight
+                if reraises and f.owner_class is not None:
+                    masked = None
+                    for st in h.body:
+                        if isinstance(st, ast.Raise):
+                            break
+                        if any(isinstance(t2, ast.Try) for t2 in ast.walk(st)):
+                            continue
+                        for c2 in ast.walk(st):
+                            if isinstance(c2, ast.Call) and isinstance(c2.func, ast.Attribute) and isinstance(c2.func.value, ast.Name) and f.params and c2.func.value.id == f.params[0]:
+                                m2 = next((k_.methods[c2.func.attr] for k_ in model.mro(f.owner_class) if c2.func.attr in k_.methods), None)
+                                d2 = none_deref(model, f.owner_class, m2) if m2 is not None else None
+                                if d2 is not None:
+                                    masked = (c2, m2, d2)
+                    run.inst('EXC.transparent', f, 'clean-up before the re-raise cannot fail on an object that never started', masked is None,
+                             '' if masked is None else ('%s calls %s before re-raising, and %s uses %s, which the constructor sets to None and only a successful start replaces: when the '
+                                                        'forwarding call %s fails on an object that was never started, the clean-up raises AttributeError inside the handler and that '
+                                                        'replaces the HsmTopologyException the caller is told to expect'
+                                                        % (f.qualname, norm(masked[0]), masked[1].qualname, norm(masked[2]), norm(forwards[0]))), node=h, obligation=True)
                 run.inst('EXC.transparent', f, 'catch-all around the forwarding call re-raises', reraises,
                          '' if reraises else ('%s wraps its forwarding call %s in `except %s:` without re-raising: the processor\'s HsmTopologyException ends there'
                                               % (f.qualname, norm(forwards[0]), norm(h.type) if h.type is not None else '')), node=h, obligation=True)
